@@ -134,8 +134,8 @@ taskreport {report_id} "{report_id}" {{
     try:
         with os.fdopen(temp_fd, "w") as f:
             # Include original file
-            f.write(f"# Original file: {tjp_path}\n")
-            f.write("# Auto-report added by plan CLI\n\n")
+            # (the file name is not repeated here: it is not project text)
+            f.write("# Copy of the input with an auto-report added by plan CLI\n\n")
             f.write(original_content)
             f.write("\n\n")
             f.write(auto_report)
